@@ -1,2 +1,5 @@
 -- Root of the `RainModel` library: models, lemmas, property theorems.
 import RainModel.Model.Blocks
+import RainModel.Model.PieceDownloader
+import RainModel.Model.PieceWriter
+import RainModel.Model.WriteDone
